@@ -98,6 +98,8 @@ def rule_r2(ctx):
                 not G.reaches(f, (f.entry, 0), [(b, max(len(f.blocks[b].elems) - 1, 0))], blocked=G.positions(pre)) for b in closed)),
             ("a closed pipe is not started", bool(closed) and all(
                 not G.reaches(f, (f.blocks[b].succs[k], 0), G.positions(start)) for b, k in closed.items() if f.blocks[b].succs[k] is not None)),
+            ("pipe_start runs only after the closed test came out false", bool(closed) and all(
+                G.dominated(f, (s_.b, s_.i), {b: 1 - k for b, k in closed.items()}) for s_ in start)),
             ("pipe_start precedes ADD_POST", not G.reaches(f, (f.entry, 0), G.positions(post), blocked=G.positions(start))),
             ("a failed pipe_start gets no ADD_POST", bool(failed) and all(
                 not G.reaches(f, (f.blocks[b].succs[k], 0), G.positions(post)) for b, k in failed.items() if f.blocks[b].succs[k] is not None)),
